@@ -382,6 +382,11 @@ impl<'a> Ctx<'a> {
 			if frames.len() < last_rows {
 				out.push(viol("inc_rows", &cls, "mismatch", format!("row count decreased at event {}", k + 1)));
 			}
+			// the frame count as the Game trait reports it is the number of rows
+			if GameTrait::len(&st) != frames.len() {
+				out.push(viol("inc_rows", &cls, "mismatch", format!("after event {}: Game::len() = {} but the frame columns have {} rows", k + 1, GameTrait::len(&st), frames.len())));
+				return;
+			}
 			last_rows = frames.len();
 			let c = cols::from_mutable(frames);
 			match mode {
@@ -650,6 +655,15 @@ impl<'a> Ctx<'a> {
 				return;
 			}
 		};
+		// a sink that takes a few bytes per call receives the same file
+		match real::write_slp_short(&g, 1 + w1.len() % 61) {
+			Outcome::Ok(ws) => {
+				if let Some(i) = first_diff(&ws, &w1) {
+					out.push(viol("tolerated_write_short_sink", &cls, "mismatch", format!("written through a sink that accepts {} bytes per call: differs at byte {}", 1 + w1.len() % 61, i)));
+				}
+			}
+			o => out.push(outcome_viol("tolerated_write_short_sink", &cls, &o)),
+		}
 		// (1) declared raw length = actual length of the raw element, measured by an independent walk
 		match walk_raw(&w1) {
 			Ok((declared, actual)) => {
@@ -755,6 +769,18 @@ impl<'a> Ctx<'a> {
 			.collect()
 	}
 
+	/// C17 on files whose known events are longer than their version prescribes (payload sizes from the table, not
+	/// from the version): if the reader accepts them, what it writes is measured, re-read and written again.
+	pub fn c17_sizes(&self, o: &crate::gen::GenOpts, out: &mut Vec<Viol>) {
+		for extra in [1usize, 4, 9] {
+			let mut oo = o.clone();
+			oo.extra = extra;
+			let with = crate::gen::build_beh(self.db, self.beh, &oo);
+			let cls = format!("{},longer_payloads", shape_class(self.beh));
+			self.fixed_point_clauses(&with.bytes, None, false, &cls, out);
+		}
+	}
+
 	/// C17 on the same files: accepted, written, measured, re-read, written again; the emission is the file without
 	/// the unknown events (the behaviours of the recorder model are canonical).
 	pub fn c17_insertions(&self, o: &crate::gen::GenOpts, out: &mut Vec<Viol>) {
@@ -794,6 +820,21 @@ impl<'a> Ctx<'a> {
 					}
 					(Outcome::Ok(_), o2) => out.push(viol("unknown_insert_skip", &cls, o2.kind(), format!("{}: {}", name, o2.detail()))),
 					_ => {}
+				}
+			}
+			// read with the debug option (dumps every event, the unknown ones included): the same game
+			if crate::util::fnv(&with.bytes) % 4 == 0 && with.bytes.len() < 1 << 20 {
+				let dir = std::env::temp_dir().join(format!("pv-debug-u-{}-{:x}", std::process::id(), crate::util::fnv(&with.bytes)));
+				let opts = slippi::de::Opts { skip_frames: false, compute_hash: false, debug: Some(slippi::de::Debug { dir: dir.clone() }), ..Default::default() };
+				let res = guard(|| slippi::read(std::io::Cursor::new(&with.bytes[..]), Some(&opts)));
+				let _ = std::fs::remove_dir_all(&dir);
+				match res {
+					Outcome::Ok(gd) => {
+						if same_cols(&base_cols, &cols::from_immutable(&gd.frames), true).is_some() || gd.gecko_codes != base.gecko_codes || gd.end != base.end || gd.metadata != base.metadata {
+							out.push(viol("unknown_insert_debug_opt", &cls, "mismatch", format!("{}: read with the debug option: the game differs", name)));
+						}
+					}
+					o2 => out.push(viol("unknown_insert_debug_opt", &cls, o2.kind(), format!("{}: {}", name, o2.detail()))),
 				}
 			}
 			// the same bytes arriving in pieces (the unknown payload is then skipped across several reads)
